@@ -41,6 +41,10 @@ func MapBuiltinToSemantic(builtin ir.BuiltinValue) SemanticMapping {
 		return SemanticMapping{"SV_Depth", 0, SVDepth}
 	case ir.BuiltinSampleIndex:
 		return SemanticMapping{"SV_SampleIndex", 0, SVSampleIndex}
+	case ir.BuiltinSampleMask:
+		// Only the pixel-shader OUTPUT reaches a signature (the input is read
+		// with dx.op.coverage); PSV0 and the metadata call it SV_Coverage too.
+		return SemanticMapping{"SV_Coverage", 0, SVCoverage}
 	case ir.BuiltinClipDistance:
 		return SemanticMapping{"SV_ClipDistance", 0, SVClipDistance}
 	case ir.BuiltinPrimitiveIndex:
